@@ -217,7 +217,7 @@ OP_KINDS = [
     "type", "type_run", "backspace", "delete", "delete_range", "paste", "paste_range",
     "insert_node", "split", "join", "lift", "wrap", "set_block_type", "set_node_markup",
     "add_mark", "remove_mark", "add_node_mark", "remove_node_mark", "set_node_attribute",
-    "set_doc_attribute", "raw_step", "replace_with_self",
+    "set_doc_attribute", "raw_step", "replace_with_self", "mark_run",
 ]
 
 DEFAULT_MIX = {
@@ -225,7 +225,7 @@ DEFAULT_MIX = {
     "paste_range": 4, "insert_node": 4, "split": 4, "join": 3, "lift": 3, "wrap": 3,
     "set_block_type": 4, "set_node_markup": 2, "add_mark": 5, "remove_mark": 3,
     "add_node_mark": 2, "remove_node_mark": 1, "set_node_attribute": 3, "set_doc_attribute": 2,
-    "raw_step": 3, "replace_with_self": 1,
+    "raw_step": 3, "replace_with_self": 1, "mark_run": 1,
 }
 
 
@@ -442,6 +442,19 @@ def gen_op_(rng, kind, doc, sel, pool):
         if m is None:
             return None
         return {"op": kind, "pos": pos, "mark": m.to_json(), "mtype": None}
+    if kind == "mark_run":
+        # two or three mark operations on touching / overlapping ranges in one transaction: their
+        # steps are consecutive and mergeable (AddMarkStep.merge / RemoveMarkStep.merge)
+        a, b = rand_range(rng, doc, maxlen=rng.choice([3, 8, 20]))
+        m = rand_mark(rng, schema)
+        if m is None or b - a < 2:
+            return None
+        cuts = sorted({a, b} | {rng.randint(a, b) for _ in range(rng.randint(1, 2))})
+        ranges = []
+        for x, y in zip(cuts, cuts[1:]):
+            lo = max(a, x - rng.choice([0, 0, 1]))
+            ranges.append([lo, y])
+        return {"op": "mark_run", "ranges": ranges, "mark": m.to_json(), "remove": rng.random() < 0.4}
     if kind == "set_node_attribute":
         ps = node_positions(doc, lambda n: not n.is_text and bool(n.type.attrs))
         if not ps:
@@ -726,6 +739,16 @@ def apply_op(tr, op):
             tr.add_mark(op["from"], op["to"], m)
         else:
             tr.remove_mark(op["from"], op["to"], m)
+    elif k == "mark_run":
+        m = schema.mark_from_json(op["mark"])
+        for (x, y) in op["ranges"]:
+            inr(x, y)
+            if x > y:
+                raise Refused("unordered")
+            if op["remove"]:
+                tr.remove_mark(x, y, m)
+            else:
+                tr.add_mark(x, y, m)
     elif k in ("add_node_mark", "remove_node_mark"):
         inr(op["pos"])
         node = doc.node_at(op["pos"])
